@@ -9,8 +9,10 @@ Record sreq := mkReq {
   q_seq : N; q_path : nat; q_meth : nat; q_ser : N;
   q_hb : bool; q_oneway : bool; q_args : nat }.
 
-(* what a handler does with (path, method, decoded args) *)
-Inductive hres := HReply (payload : nat) | HFail (text : nat) | HPanic (value : nat).
+(* what the call stage does with (path, method, decoded args): the handler's outcome, or - for reflected methods
+   and registered functions, whose arguments pass the PreCall plugins first - a plugin's refusal with its text
+   (then no handler runs) *)
+Inductive hres := HReply (payload : nat) | HFail (text : nat) | HPanic (value : nat) | HVeto (text : nat).
 (* how the server finds the target *)
 Inductive target := TRouter | TNoService | TNoMethod | TMethod | TFunction.
 
@@ -64,6 +66,7 @@ Definition handle_reflected (q : sreq) : sresp * list invocation :=
     | HReply p => (with_meta (base q SNormal None p) m, inv)
     | HFail t => (with_meta (err_resp q (XExact t)) m, inv)
     | HPanic v => (with_meta (err_resp q (XPanic v)) m, inv)      (* service.call recovers and wraps the value *)
+    | HVeto t => (err_resp q (XExact t), [])      (* DoPreCall returned an error: answered with it, nothing invoked *)
     end.
 
 (* processOneRequest: the frames written for one request, and the handlers that ran *)
@@ -79,7 +82,7 @@ Definition process (q : sreq) : list sresp * list invocation :=
            match handler (q_path q) (q_meth q) (q_args q) with
            | HReply p => if codec_ok (q_ser q) then ([with_meta (base q SNormal None p) m], inv)
                          else ([with_meta (err_resp q (XNoCodec (q_ser q))) m], inv)   (* Write fails, the handler's error goes to WriteError *)
-           | HFail t => ([with_meta (err_resp q (XExact t)) m], inv)
+           | HFail t | HVeto t => ([with_meta (err_resp q (XExact t)) m], inv)   (* no PreCall stage before a router handler: a refusal can only be the handler's own error *)
            | HPanic v => ([with_meta (err_resp q (XPanicExact v)) m], inv)
            end
     | TNoService => if q_oneway q then ([], []) else ([err_resp q (XNoService (q_path q))], [])
